@@ -18,6 +18,7 @@ def verify_one(qual, mode="q", timeout_ms=10000, verbose=False, variant=None, k=
     ex.leftover = []
     if cpu_limit:
         ex.cpu_deadline = time.process_time() + cpu_limit
+        ex.cpu_hard = time.process_time() + cpu_limit / 0.55 * 0.9
     t = time.time()
     try:
         obs = ex.verify(spec, variant, root=root, budget=budget)
